@@ -61,7 +61,7 @@ pub fn plan(id: &str, tier: &str) -> Option<Plan> {
         "C20" => Some(Plan::new(if _t { 16 } else { 16 }, 1500)),
         "C12" => Some(Plan::new(c12::shards(), 1500)),
         "C09" => Some(Plan::new(if _t { 64 } else { 16 }, 1500)),
-        "C04" => Some(Plan::new(if _t { 42 } else { 14 }, 2400)),
+        "C04" => Some(Plan::new(if _t { 28 } else { 14 }, 2400)),
         "C11" => Some(Plan::new(if _t { 8 } else { 4 }, 900)),
         _ => None,
     }
